@@ -196,7 +196,15 @@ fn word_depend(r: &mut Rng, id: &str) -> String {
 pub fn bad_depend(r: &mut Rng, id: &str) -> String {
     match r.below(15) {
         10..=14 => word_depend(r, id),
-        0 => format!("hello{id}"),
+        0 => {
+            // a valid item with one more ':' at its very end or beginning
+            let g = good_depend(r, id);
+            match r.below(3) {
+                0 => format!("hello{id}"),
+                1 => format!("{g}:"),
+                _ => format!(":{g}"),
+            }
+        }
         1 => format!("{id}:b:c"),
         2 => format!("{id}-[0-9]*::../../cat/{id}"),
         3 => format!("{id}>2>3:../../cat/{id}"),
@@ -641,6 +649,88 @@ pub fn pool_doc(key: usize, bodies: &[usize]) -> Doc {
         ignored_lines: 0,
         dup_pkgname: 0,
     }
+}
+
+/// The fifteen known keys, each with two valid values of its kind.
+pub const KNOWN_KEYS: [(&str, &str, &str); 15] = [
+    ("PKGNAME", "p-1.0", "q-2.0"),
+    ("ALL_DEPENDS", "a>=1:../../cat/a", "b-[0-9]*:../../dog/b"),
+    ("PKG_LOCATION", "cat/a", "dog/b"),
+    ("SCAN_DEPENDS", "a.mk", "../b/c.mk"),
+    ("MULTI_VERSION", "X=1", "Y=2"),
+    ("PKG_SKIP_REASON", "v1", "v2"),
+    ("PKG_FAIL_REASON", "v1", "v2"),
+    ("NO_BIN_ON_FTP", "v1", "v2"),
+    ("RESTRICTED", "v1", "v2"),
+    ("CATEGORIES", "net", "www"),
+    ("MAINTAINER", "a@b", "c@d"),
+    ("USE_DESTDIR", "yes", "no"),
+    ("BOOTSTRAP_PKG", "yes", "no"),
+    ("USERGROUP_PHASE", "v1", "v2"),
+    ("PBULK_WEIGHT", "100", "7"),
+];
+
+fn known_sem(key: &str, value: &str) -> Sem {
+    let words: Vec<String> = value.split_whitespace().map(|w| w.to_string()).collect();
+    match key {
+        "PKGNAME" => Sem::Pkgname(value.to_string()),
+        "ALL_DEPENDS" => Sem::AllDepends { items: words, bad: None },
+        "PKG_LOCATION" => Sem::Location { value: value.to_string(), valid: true },
+        "SCAN_DEPENDS" => Sem::ScanDepends(words),
+        "MULTI_VERSION" => Sem::MultiVersion(words),
+        k => Sem::Scalar(SCALARS.iter().position(|s| *s == k).expect("harness: a scalar key"), value.to_string()),
+    }
+}
+
+/// Every key that differs from a known key in one bit, or in one bit of each
+/// of two neighbouring bytes (what a hand-written hash, tag or packed
+/// comparison of the key is most likely to confuse with it), as far as it is
+/// printable ASCII without '=' and not itself a known key.
+pub fn flipped_keys(key: &str) -> Vec<String> {
+    let b = key.as_bytes();
+    let ok = |v: &[u8]| v.iter().all(|c| (0x21..0x7f).contains(c) && *c != b'=') && !KNOWN_KEYS.iter().any(|(k, _, _)| k.as_bytes() == v);
+    let mut out = vec![];
+    for i in 0..b.len() {
+        for x in 0..8 {
+            let mut v = b.to_vec();
+            v[i] ^= 1 << x;
+            if ok(&v) {
+                out.push(String::from_utf8(v.clone()).expect("ascii"));
+            }
+            if i + 1 < b.len() {
+                for y in 0..8 {
+                    let mut w = v.clone();
+                    w[i + 1] ^= 1 << y;
+                    if ok(&w) {
+                        out.push(String::from_utf8(w).expect("ascii"));
+                    }
+                }
+            }
+        }
+    }
+    out.sort();
+    out.dedup();
+    out
+}
+
+/// "PKGNAME=p-1.0", the known key with its first value, then the look-alike
+/// key with the second value: the look-alike is an unknown key and changes
+/// nothing.  (For PKGNAME itself the look-alike line follows directly.)
+pub fn flipped_key_doc(k: usize, look_alike: &str) -> Doc {
+    let (key, v1, v2) = KNOWN_KEYS[k];
+    let mut lines: Vec<Line> = vec![Line { sem: Sem::Pkgname("p-1.0".into()), text: b"PKGNAME=p-1.0".to_vec() }];
+    if key != "PKGNAME" {
+        lines.push(Line { sem: known_sem(key, v1), text: format!("{key}={v1}").into_bytes() });
+    }
+    lines.push(Line { sem: Sem::Ignored, text: format!("{look_alike}={v2}").into_bytes() });
+    let mut bytes = vec![];
+    let mut sems = vec![];
+    for l in lines {
+        bytes.extend_from_slice(&l.text);
+        bytes.push(b'\n');
+        sems.push(l.sem);
+    }
+    Doc { bytes, sems, class: Class::Clean, fault_pos: "look-alike key".into(), records: 1, leak_probes: 0, repeated_keys: 0, ignored_lines: 1, dup_pkgname: 0 }
 }
 
 pub fn doc(r: &mut Rng, class: Class, small: bool) -> Doc {
